@@ -8,6 +8,7 @@ functions, which it interprets itself.  Any other construct raises
 Unsupported (reported as ANALYSIS-ERROR by the rules).
 """
 import ast
+import collections
 import shlex
 import json
 import os
@@ -46,7 +47,7 @@ SAFE_BUILTINS = {
     'len': len, 'chr': chr, 'ord': ord, 'range': range, 'all': all, 'any': any, 'sorted': sorted, 'min': min, 'max': max,
     'str': str, 'int': int, 'list': list, 'tuple': tuple, 'set': set, 'frozenset': frozenset, 'bool': bool, 'repr': repr,
     'enumerate': enumerate, 'zip': zip, 'reversed': reversed, 'sum': sum, 'isinstance': isinstance, 'type': type,
-    'dict': dict, 'abs': abs, 'OrderedDict': dict, 'bytes': bytes, 'float': float, 'round': round, 'divmod': divmod, 'map': map, 'filter': filter,
+    'dict': dict, 'abs': abs, 'OrderedDict': dict, 'bytes': bytes, 'float': float, 'round': round, 'divmod': divmod, 'map': map, 'filter': filter, 'namedtuple': collections.namedtuple,
 }
 SAFE_ATTR_CALLS = {
     're.escape': re.escape, 're.compile': re.compile, 're.match': re.match, 're.fullmatch': re.fullmatch, 're.search': re.search,
@@ -466,6 +467,8 @@ class Interp:
                 return o[1].mod.name
             if _is_model(o) or _foreign(self, o):
                 return getattr(o, e.attr)
+            if isinstance(o, tuple) and e.attr in getattr(type(o), '_fields', ()):
+                return getattr(o, e.attr)       # field of a namedtuple
             if isinstance(o, Obj):
                 if e.attr in o.attrs:
                     return o.attrs[e.attr]
@@ -664,6 +667,8 @@ class Interp:
             return self.expr(lam.body, env, mod)
         if callable(f) and f in SAFE_BUILTINS.values():
             return f(*self._py(args), **{k: self._py1(v) for k, v in kwargs.items()})
+        if isinstance(f, type) and issubclass(f, tuple) and hasattr(f, '_fields'):
+            return f(*args, **kwargs)          # a namedtuple class made by the evaluated module
         if _is_model(f) or _foreign(self, f) or getattr(f, '_pyeval_model', False) or any(f is v for v in self.extra_names.values()):
             return f(*args, **kwargs)
         owner = getattr(f, '__self__', None)
